@@ -136,8 +136,19 @@ impl<'a> PrettyPrinter<'a> {
     }
 
     pub(super) fn convert_binary_chain(&'a self, ctx: Context, binary: Binary<'a>) -> ArenaDoc<'a> {
-        let op = binary.op();
-        let prec = op.precedence();
+        let prec = binary.op().precedence();
+        // The `in` tokens that belong to a `not in` operator anywhere in the chain.
+        let not_in_tokens: Vec<_> = resolve_binary_chain(binary)
+            .filter_map(|node| node.cast::<Binary>())
+            .filter(|binary| binary.op() == BinOp::NotIn)
+            .filter_map(|binary| {
+                binary
+                    .to_untyped()
+                    .children()
+                    .find(|child| child.kind() == SyntaxKind::In)
+                    .map(|child| child.span())
+            })
+            .collect();
         ChainStylist::new(self)
             .process_resolved(
                 ctx,
@@ -147,8 +158,8 @@ impl<'a> PrettyPrinter<'a> {
                         .is_some_and(|binary| binary.op().precedence() == prec)
                 },
                 |child| {
-                    if child.kind() == SyntaxKind::In && op == BinOp::NotIn {
-                        Some(self.arena.text(op.as_str()))
+                    if child.kind() == SyntaxKind::In && not_in_tokens.contains(&child.span()) {
+                        Some(self.arena.text(BinOp::NotIn.as_str()))
                     } else {
                         BinOp::from_kind(child.kind()).map(|op| self.arena.text(op.as_str()))
                     }
